@@ -121,7 +121,7 @@ class C05(Check):
             'lookup, NEWTHREAD data+string, EXEC data+string, nested syscalls, thread name + terminate, sampler window, global '
             'string + dlopen, 3-record lookup inside stat64, page fault with nested record, launch with nested map, EXEC pair with '
             'an unrelated syscall in between, NEWTHREAD pair announcing a sibling participant\'s thread id, two ENDs whose STARTs fell before the capture), each parameterised by its own tid/pid/names, EVERY interleaving (merge preserving '
-            'each program\'s order) is fed to a fresh TracesParser - once built with empty tables and once with a thread map already populated at construction. quick: all pairs (full programs) + all triples of programs '
+            'each program\'s order) is fed to a fresh TracesParser - once built with empty tables and once with a thread map already populated at construction. Plus one schedule family with a gap of 600..40 000 foreign records inside an open call, through feed_generator. quick: all pairs (full programs) + all triples of programs '
             'truncated to 2 events; thorough: all pairs and all triples of full programs. Oracle: per-thread list of (trace type, '
             'text, window) equals the solo run of that thread\'s program; learned tables equal the union of the solo runs. '
             'states = distinct program combinations; transitions = feeds; non-trivial = schedule with at least one context switch '
@@ -138,9 +138,34 @@ class C05(Check):
         out = [('pairs', ch, None) for ch in chunked(list(itertools.product(NAMES, repeat=2)), 32)]
         trunc = 2 if self.tier == 'quick' else None
         out += [('triples', ch, trunc) for ch in chunked(list(itertools.product(NAMES, repeat=3)), 128 if trunc else 330)]
+        out.append(('long-gap', None, None))
         return out
 
+    def run_long_gap(self, acc):
+        """thread 1 is inside a call while thread 2 runs N complete programs (N*k records), fed through feed_generator: thread 1's
+        result must be what it is alone. N chosen so that the gap is 500 .. 40 000 records."""
+        a = programs(1)['nested-syscalls']
+        solo_a = run(a)[0]
+        for name in ('open+lookup', 'sample', 'exec', 'vmfault'):
+            b = programs(2)[name]
+            for reps in (200, 3000, 10000):
+                merged = a[:2] + b * reps + a[2:]
+                p = TracesParser(E.codes(), {}, {})
+                per = {}
+                try:
+                    for r in p.feed_generator(e._replace(timestamp=i) for i, e in enumerate(merged)):
+                        per.setdefault(r.ktraces[0].tid, []).append((type(r).__name__, str(r), tuple((x.eventid, x.func_qualifier, x.data, x.tid) for x in r.ktraces)))
+                    bad = None if per.get(1) == solo_a.get(1) else ('per-thread-traces-depend-on-interleaving:long-gap', {'program': name, 'foreign_records': len(b) * reps,
+                                                                       'got': [x[1] for x in per.get(1, [])], 'solo': [x[1] for x in solo_a.get(1, [])]})
+                except Exception as ex:
+                    bad = ('interleaving-raised:' + type(ex).__name__, {'error': repr(ex)[:200]})
+                acc.case(nontrivial=True, transitions=len(merged), state=h64(('gap', name)), outcome=h64(('gap', name, reps)))
+                if bad:
+                    acc.violation(bad[0], {'programs': ['long-gap', name, reps], 'schedule': [], 'trunc': None}, bad[1])
+
     def run_shard(self, desc, acc):
+        if desc[0] == 'long-gap':
+            return self.run_long_gap(acc)
         _, combos, trunc = desc
         for combo in combos:
             if 'newthread-of-sibling' in combo and 'threadname+terminate' in combo:
@@ -159,6 +184,11 @@ class C05(Check):
                     acc.sample({'programs': list(combo), 'schedule_thread_indices': list(sched)})
 
     def replay(self, case):
+        if case['programs'] and case['programs'][0] == 'long-gap':
+            from mc.run import Acc
+            acc = Acc()
+            self.run_long_gap(acc)
+            return [(sig, v['cases'][0][1]) for sig, v in acc.violations.items()]
         bad = judge(tuple(case['programs']), tuple(case['schedule']), case['trunc']) or \
             judge(tuple(case['programs']), tuple(case['schedule']), case['trunc'], prefilled=True)
         if not bad:
